@@ -8,6 +8,7 @@ import (
 	"fmt"
 	"os"
 	"path/filepath"
+	"regexp"
 	"runtime/debug"
 	"sort"
 	"strings"
@@ -38,6 +39,8 @@ type outcome struct {
 	site string
 }
 
+var ansiRE = regexp.MustCompile("\x1b\\[[0-9;]*m")
+
 func normalize(m *sysl.Module) (o outcome) {
 	defer func() {
 		if r := recover(); r != nil {
@@ -53,7 +56,7 @@ func normalize(m *sysl.Module) (o outcome) {
 	}()
 	s, err := relmod.Normalize(context.Background(), m)
 	if err != nil {
-		msg := err.Error()
+		msg := ansiRE.ReplaceAllString(err.Error(), "")
 		if len(msg) > 160 {
 			msg = msg[:160]
 		}
